@@ -522,6 +522,38 @@ def check_helpers(h: Harness):
                    f"with value {bv}; the population holds {fitter[0]}", {"vals": vals, "kind": kind})
 
 
+def check_single_tracker_over_components(h: Harness):
+    """a SingleObjectiveProgressTracker tracking a problem with SEVERAL components (a multi-objective problem judged by its aggregate):
+    individuals whose aggregates tie are no improvement on each other, whatever their components are"""
+    rng = h.rng
+    for trial in range(h.n(60, 600)):
+        n = rng.randint(2, 8)
+        comps = [(rng.randint(0, 3), rng.randint(0, 3)) for _ in range(n)]
+        problem = MultiObjectiveProblem([False, False], lambda ph: [float(ph[1][0]), float(ph[1][1])])
+        rec = Recording()
+        tracker = SingleObjectiveProgressTracker(problem, SequentialEvaluator(), recorders=[rec])
+        try:
+            for i, c in enumerate(comps):
+                tracker.evaluate([mk_ind(i, c)])
+        except Exception as e:  # noqa: BLE001
+            h.fail("SingleObjectiveProgressTracker.evaluate", "raises", f"components {comps}: {type(e).__name__}: {e}", {"comps": comps})
+            continue
+        h.count("single-tracker-over-components")
+        aggs = [a + b_ for a, b_ in comps]
+        h.seen(f"single-over-components:{comps}", nontrivial=len(set(aggs)) < len(aggs))
+        want, inc = [], None
+        for a in aggs:
+            better = inc is None or a > inc
+            want.append(better)
+            inc = a if better else inc
+        flags = [bool(r["is_best"]) for r in rec.rows]
+        if flags != want:
+            j = next(k for k in range(len(flags)) if flags[k] != want[k])
+            h.fail("SingleObjectiveProgressTracker.evaluate", "is-best-flag-wrong",
+                   f"single-objective tracker over a two-component problem (aggregate = sum, maximise), components {comps}: registration #{j} announced with "
+                   f"is_best={flags[j]}; its aggregate {aggs[j]} {'is' if want[j] else 'is not'} a strict improvement on {aggs[:j]}", {"comps": comps})
+
+
 def check_population_recorder(h: Harness):
     """`geml.common.PopulationRecorder` (what the sklearn-style wrappers report as their population): its head is the individual most
     recently announced as best -- the tracker's best -- however many improvements a run has (more than its number of slots included),
@@ -943,6 +975,7 @@ def run(h: Harness):
     check_searches(h)
     check_helpers(h)
     check_population_recorder(h)
+    check_single_tracker_over_components(h)
     check_real_programs_with_ties(h)
     check_one_tracker_several_searches(h)
     check_adaptive_gp(h)
